@@ -61,6 +61,8 @@ func VerifC07ReadOnly() {
 	lr.SetTimestamp(pcommon.Timestamp(ts))
 	lr.Body().SetStr("body")
 	lr.Attributes().PutInt("k", vNondetInt64("attr"))
+	lr.Attributes().PutEmptySlice("list").AppendEmpty().SetInt(7) // a slice-kind value inside the payload
+	lr.Attributes().PutEmptyMap("obj").PutStr("inner", "x")
 	sl.LogRecords().AppendEmpty()
 
 	other := NewLogs()
@@ -121,6 +123,11 @@ func VerifC07ReadOnly() {
 	cp := NewLogs()
 	ld.CopyTo(cp)
 	vAssert(!cp.IsReadOnly() && vc07ROSnap(cp) == before, "read-only/copy-out-works-and-is-mutable")
+	cl, _ := cp.ResourceLogs().At(0).ScopeLogs().At(0).LogRecords().At(0).Attributes().Get("list")
+	vAssert(cl.Type() == pcommon.ValueTypeSlice && cl.Slice().Len() == 1 && cl.Slice().At(0).Int() == 7, "read-only/copy-out-includes-slice-kind-values")
+	cl.Slice().At(0).SetInt(8)
+	ol, _ := lr.Attributes().Get("list")
+	vAssert(ol.Slice().At(0).Int() == 7, "read-only/original-slice-value-independent-of-its-copy")
 	cp.ResourceLogs().At(0).ScopeLogs().At(0).LogRecords().At(0).SetTimestamp(pcommon.Timestamp(ts + 5))
 	vAssert(vc07ROSnap(ld) == before, "read-only/original-independent-of-its-copy")
 	vReach("end")
